@@ -43,6 +43,48 @@ def sig_of(rec):
     return "%s/%s" % (rec.get("prop"), "/".join(parts))
 
 
+def directed(prop, world, quick):
+    """Directed histories (still judged by Trace_Server like every other script): combinations the random walks
+    reach too rarely."""
+    A, B = [65], [66, 98]
+
+    def connect(c, addr="10.1.1.1"):
+        return {"op": "connect", "c": c, "addr": addr}
+
+    def login(c, login="", pw=(), flow="old", name=A):
+        return {"op": "login", "c": c, "login": login, "pw": list(pw), "flow": flow, "name": name, "icon": 1, "id": 0}
+    out = []
+    if prop == "C12":
+        # a member that disconnects without leaving the chat; later a newcomer may be given its user ID
+        for churn in (0, 65534, 65535):
+            for extra in ([], [{"op": "subject", "c": 1, "chat": 1, "subject": [83]}]):
+                steps = [connect(1), login(1, "adm", [1]), connect(2, "10.2.2.2"), login(2), {"op": "invitenew", "c": 1, "target": 2},
+                         {"op": "join", "c": 2, "chat": 1}, {"op": "chat", "c": 2, "chat": 1, "msg": [104], "emote": False},
+                         {"op": "close", "c": 2}]
+                if churn:
+                    steps.append({"op": "churn", "n": churn})
+                steps += [connect(3, "10.2.2.2"), login(3, name=B), {"op": "chat", "c": 1, "chat": 1, "msg": [105], "emote": False}] + extra
+                steps += [connect(4, "10.1.1.12"), login(4, "mod", [3]), {"op": "join", "c": 4, "chat": 1},
+                          {"op": "chat", "c": 4, "chat": 1, "msg": [106], "emote": True}, {"op": "leave", "c": 4, "chat": 1},
+                          {"op": "chat", "c": 1, "chat": 1, "msg": [107], "emote": False}]
+                out.append({"world": world, "steps": steps})
+    if prop == "C04":
+        # k failed attempts from one address, then a valid login from the same address and from another one
+        for k in (1, 3, 5, 6, 9):
+            steps, c = [], 0
+            for i in range(k):
+                c += 1
+                if i % 2 == 0:
+                    steps.append({"op": "rawfail", "c": c, "addr": "10.1.1.1", "hs": "ok", "matches": False, "sentFirst": True,
+                                  "login": "adm", "pw": [9], "trailing": i % 3})
+                else:
+                    steps += [connect(c), login(c, "adm", [2])]
+            steps += [connect(c + 1), login(c + 1, "adm", [1]), connect(c + 2, "10.2.2.2"), login(c + 2),
+                      {"op": "userlist", "c": c + 1}]
+            out.append({"world": world, "steps": steps})
+    return out
+
+
 def run(ctx, prop):
     quick = ctx.quick()
     ctx.build()
@@ -56,18 +98,18 @@ def run(ctx, prop):
     nsim = {"C04": 60, "C12": 40, "C13": 30, "C17": 60}[prop] if quick else 150
     scripts = []
     for b in range(batches):
-        _, items = ctx.generate("MC_Server", "Gen_Server_%s.cfg" % prop, "gen%d.ndjson" % b, simulate=nsim, depth=32,
+        _, items = ctx.generate("MC_Server", "Gen_Server_%s.cfg" % prop, "gen%d.ndjson" % b, simulate=nsim, depth=40,
                                 extra_seed=b + {"C04": 100, "C12": 200, "C13": 300, "C17": 400}[prop], timeout=600)
         # TLC prints every candidate successor at the last depth: keep every 7th to avoid near-duplicates
         scripts += items[::7]
         if prop == "C04":
             # second profile: few argument variants, so that password changes, two-step logins and other users'
             # activity between the two steps are frequent
-            _, items2 = ctx.generate("MC_Server", "Gen_Server_C04b.cfg", "genb%d.ndjson" % b, simulate=nsim, depth=32,
+            _, items2 = ctx.generate("MC_Server", "Gen_Server_C04b.cfg", "genb%d.ndjson" % b, simulate=nsim, depth=40,
                                      extra_seed=b + 150, timeout=600)
             scripts += items2[::5]
             # third profile: only connects, logins and account edits (credential-change histories)
-            _, items3 = ctx.generate("MC_Server", "Gen_Server_C04c.cfg", "genc%d.ndjson" % b, simulate=nsim, depth=32,
+            _, items3 = ctx.generate("MC_Server", "Gen_Server_C04c.cfg", "genc%d.ndjson" % b, simulate=nsim, depth=40,
                                      extra_seed=b + 170, timeout=600)
             scripts += items3[::4]
     # free-running concurrency that is sound under every interleaving: a chat with permanent members, churning
@@ -79,6 +121,7 @@ def run(ctx, prop):
     if prop == "C17":
         for k in range(8 if quick else 40):
             scripts.append({"world": world, "steps": [{"op": "banstorm", "n": 24}]})
+    scripts += directed(prop, world, quick)
     sp = ctx.path("scripts.ndjson")
     with open(sp, "w") as f:
         for s in scripts:
